@@ -30,6 +30,15 @@ def check_case(case):
                     if not close(g(srow, "Power (W)"), g(obs_[(ph, sname)], "Power (W)"), 1e-9, 1e-15) or not close(g(srow, "Loss (W)"), el, 1e-9, 1e-15):
                         r.v(("C02.subsystem-balance",), "phase %r Subsystem %s: P %r L %r; its source delivers %r, the rows it powers lose %r" % (
                             ph, sname, g(srow, "Power (W)"), g(srow, "Loss (W)"), g(obs_[(ph, sname)], "Power (W)"), el))
+    elif case["fam"] == "spread":
+        # an amps-level branch beside a deep micro-amp regulator chain: the books of the SMALL rows must close too (Loss <= Power, P - L = |Vo| Io)
+        from .c01 import spread_spec
+        r = Res()
+        spec = spread_spec(case["depth"], case["heavy"], case["micro"], case["pol"])
+        for c in spec["comps"]:
+            if c["k"] in ("Converter", "LinReg"):
+                c["a"]["rt"] = 50.0
+        phys.solve_and_check(r, spec, ("C02",), case["ta"])
     elif case["fam"] == "phase":
         r = Res()
         spec = spec_from_forest(case["f"], case["pal"], case["pol"], case["srs"])
@@ -148,6 +157,12 @@ def gen_cases(tier):
                     yield dict(fam="mux", inputs=[list(x) for x in inputs], pal=pal, rs_list=False, pol=1, srs=0.0, n=k, ta=25.0, ig_table=True)
                 # the same system reached through an edit history (a chain element may get a LOWER node index than its own source)
                 yield dict(fam="mux", inputs=[list(x) for x in inputs], pal=pal, rs_list=(k == 3), pol=1, srs=0.0, n=k, ta=25.0, holes="analysed")
+        if pal == sd % 3 or tier != "quick":
+            for depth in (2, 3, 4, 5, 6):
+                for heavy in (0.5, 20.0, 100.0):
+                    for micro in (2e-6, 8e-5, 1e-3):
+                        for pol in (1, -1):
+                            yield dict(fam="spread", depth=depth, heavy=heavy, micro=micro, pol=pol, pal=pal, srs=0.0, n=depth + 2, ta=40.0)
         for n1 in (1, 2):
             for f1 in mid.iter_forests(n1):
                 for f2 in mid.iter_forests(1):
@@ -181,5 +196,6 @@ def main(tier):
         rule="E1 tree space of C01 (full alphabet n<=3, deep chains, two-source forests) x ambient temperature menu x polarity x source rs; "
              "oracle on the table only: P-L=|Vout|*Iout, 0<=L<=P, Eff=100(P-L)/P in [0,100], load consumption in exactly one of Power/Loss, "
              "sum(source P)=sum(load P)+sum(Loss), rise=rt*Loss and peak=ta+rise for every non-source row (literal reading). "
+             "Plus amps-level loads (to 100 A) beside micro-amp regulator chains of depth 2..6 with thermal resistances (the small rows' books must close too). "
              "non-trivial = solved system in which a row took a non-default law branch; temp_rows counts rows with rt*Loss>0.",
         assumptions=["numeric values limited to the palettes", "trees up to the stated node bound"])
